@@ -31,12 +31,22 @@ func init() {
 				Rule: fmt.Sprintf("all connection histories of <= %d events after the first open, over: open an admitted connection (at most 2), open a refused connection, on each open connection a packet "+
 					"(session A/B x seq 1,2,3 and, on session A, 255 x handler replies / replies+continuation / continuation only), a key-mismatch packet, an oversize header, a client close; every history is followed by the teardown "+
 					"(remaining clients close, context cancelled, Serve returns). The four in-flight gauges are gathered from the default prometheus registry before the history, at every idle point and after Serve returned: "+
-					"none may be below its value at rest, all must be back at rest at the end. states = distinct (open connections, open sessions per connection) model states; transitions = events executed", d),
+					"none may be below its value at rest, all must be back at rest at the end. states = distinct (open connections, open sessions per connection) model states; transitions = events executed. "+
+					"Plus (engine E2, instrumented code under the controlled scheduler with a VIRTUAL clock): 8 scripts of 1-2 packets on one or two connections (sessions that complete, sessions left waiting, a refused packet) x {plain, single-connect} x {clients close then cancel, cancel with connections open}, "+
+					"every schedule with <= 1 (quick) / 2 (thorough) deviations; after the teardown the clock is advanced by an hour so that every timer the server armed fires (at most 4 firings per timer): gauges never below rest, and at rest after the teardown and after the hour", d),
 				Assumptions: []string{"gauges are read through prometheus.DefaultGatherer; the Go and process collectors are unregistered in the harness process only to make gathering cheap"}}
 		},
-		Workers: constInt(16, 16),
-		Run:     c20Run,
-		Replay:  c20Replay,
+		Workers:      constInt(16, 16),
+		SchedWorkers: constInt(4, 8),
+		Run: func(c *Ctx) {
+			if c.Param == "sched" {
+				schedRun(c)
+				return
+			}
+			c20Run(c)
+		},
+		Replay: c20Replay,
+		Post:   schedPost,
 	}
 }
 
